@@ -1505,6 +1505,7 @@ CHECKS['C21'] = C21
 class C25:
     id = 'C25'
     level = 'exploration'
+    schedule_sampled = True
     build = [('asan', 'fx'), ('tsan', 'fx')]
     workers = 4
     examples = 240
